@@ -14,7 +14,7 @@ from ..desc import field, message, enum, method, service, file, request, map_fie
 from ..ref import names
 from ..report import HarnessError
 
-RULE = ('cells = arity(4) x request location(5) x response location(6) + name cells; each cell x client{sync,asyncio} '
+RULE = ('cells = arity(4) x request location(5) x response location(8) + name cells; a second client instance per service on its own channel; each cell x client{sync,asyncio} '
         'x request form{message,dict,omitted | iterators of 0,1,2} x request valuations{empty,each field alone,all} '
         'x reply scripts; non-trivial = distinct (cell, client, form) with >=1 call observed on the channel')
 
@@ -25,7 +25,9 @@ KIND = {'uu': 'unary_unary', 'us': 'unary_stream', 'su': 'stream_unary', 'ss': '
 REQ_LOCS = {'same': Q('LocalReq'), 'other_file': Q('OtherReq'), 'dep_installed': '.google.iam.v1.GetIamPolicyRequest',
             'dep_synth': '.acme.other.v1.PriceRequest', 'empty': EMPTY}
 RESP_LOCS = {'same': Q('LocalResp'), 'other_file': Q('OtherResp'), 'dep_installed': '.google.iam.v1.Policy',
-             'dep_synth': '.acme.other.v1.Money', 'empty': EMPTY, 'operation': OPERATION}
+             'dep_synth': '.acme.other.v1.Money', 'empty': EMPTY, 'operation': OPERATION,
+             # API-defined messages that merely share the short name of a special well-known type
+             'local_empty': Q('Empty'), 'local_operation': Q('Operation')}
 KEYWORD_RPCS = ['Import', 'Global', 'Class', 'From', 'Return', 'Pass', 'Lambda', 'Yield', 'Del', 'Assert', 'Await',
                 'Async', 'Try', 'While', 'With', 'Is', 'In', 'Not', 'Or', 'And', 'If', 'Else', 'Elif', 'For', 'Def',
                 'Raise', 'Break', 'Continue', 'Except', 'Finally', 'Nonlocal', 'As']
@@ -52,6 +54,8 @@ def build():
     local_msgs.append(message('LocalResp', [field('text', 1, 'string'), field('n', 2, 'uint64'),
                                             field('items', 3, Q('LocalReq.Inner'), repeated=True),
                                             field('from', 4, 'string')]))
+    local_msgs.append(message('Empty', [field('note', 1, 'string'), field('stamp', 2, 'int32')]))
+    local_msgs.append(message('Operation', [field('name', 1, 'string'), field('done', 2, 'bool'), field('pct', 3, 'int32')]))
     other = file('acme/rpc/v1/types_a.proto', P, messages=[
         message('OtherReq', [field('id', 1, 'fixed32'), field('blob', 2, 'bytes')]),
         message('OtherResp', [field('ok', 1, 'bool'), field('score', 2, 'float')])])
